@@ -55,19 +55,22 @@ def customDecode (n : String) : Option (Val → Out) :=
     | _ => .unmodelled "cpus text"
   | _ => none
 
+/-- what the decoder makes of one field: its YAML key looked up in the mapping; a missing or null key leaves the zero value
+    (a field without a YAML key — `yaml:"-"`, or the inlined extension map — is not read here) -/
+def fieldDecoded (dec : TyExpr → Val → Out) (zero : TyExpr → Val) (t : List (String × Val)) (fd : FieldDesc) : Out :=
+  if fd.yamlSkip || fd.yamlInline then .ok (zero fd.ty)
+  else match Val.lookup fd.yamlKey t with
+    | none => .ok (zero fd.ty)
+    | some .null => .ok (zero fd.ty)
+    | some x => dec fd.ty x
+
 /-- the fields of a struct from a mapping; `dec` decodes a field value, `zero` gives the value of an absent one -/
 def decodeFieldsWith (dec : TyExpr → Val → Out) (zero : TyExpr → Val) :
     List FieldDesc → List (String × Val) → Except Out (List (String × Val))
   | [], _ => .ok []
   | fd :: rest, t =>
     if !rendered fd then decodeFieldsWith dec zero rest t else
-    let r : Out :=
-      if fd.yamlSkip || fd.yamlInline then .ok (zero fd.ty)
-      else match Val.lookup fd.yamlKey t with
-        | none => .ok (zero fd.ty)
-        | some .null => .ok (zero fd.ty)
-        | some x => dec fd.ty x
-    match r, decodeFieldsWith dec zero rest t with
+    match fieldDecoded dec zero t fd, decodeFieldsWith dec zero rest t with
     | .ok v, .ok vs => .ok ((fd.goName, v) :: vs)
     | .ok _, .error e => .error e
     | e, _ => .error e
